@@ -616,6 +616,79 @@ fn run_listener() {
     }
     l.k().clear();
 
+    // ---- S10: the agent is out of file descriptors when a redirected connection arrives (a flood of local connections does that):
+    //           accept() still gets the last free descriptor, but the socket cannot be duplicated for the service and the proxy
+    //           drops the connection before it serves it. The kernel wrote a record for that connection and the proxy accepted it:
+    //           the record must be consumed all the same, and its source port, used again without a fresh record, must be refused.
+    for (ci, (r, _)) in callers.iter().take(2).enumerate() {
+        let what = "connection accepted while the agent is out of file descriptors";
+        let h = format!("K(p, uid {} is_root {} dest {}:{}) [descriptor table full but one] C(p) dropped by the proxy; C(p) again without record", r.uid, r.is_root, r.dst, r.dport);
+        let b = match BoundSock::bind_retry(Ipv4Addr::LOCALHOST, l.src(0x9b01 + ci as u16)) {
+            Ok(b) => b,
+            Err(e) => {
+                l.fail(serde_json::json!({"property": "C07", "case": what, "got": format!("bind: {}", e)}));
+                continue;
+            }
+        };
+        let p = b.port;
+        l.k().put(p, r);
+        // soft limit down to 512, fill the table, give back exactly one descriptor (the one accept() will take)
+        let mut old: libc::rlimit = unsafe { std::mem::zeroed() };
+        unsafe { libc::getrlimit(libc::RLIMIT_NOFILE, &mut old) };
+        let low = libc::rlimit { rlim_cur: 512.min(old.rlim_max), rlim_max: old.rlim_max };
+        unsafe { libc::setrlimit(libc::RLIMIT_NOFILE, &low) };
+        let mut fill: Vec<i32> = Vec::new();
+        loop {
+            let fd = unsafe { libc::open(b"/dev/null\0".as_ptr() as *const libc::c_char, libc::O_RDONLY | libc::O_CLOEXEC) };
+            if fd < 0 || fill.len() > 600 {
+                break;
+            }
+            fill.push(fd);
+        }
+        if let Some(fd) = fill.pop() {
+            unsafe { libc::close(fd) };
+        }
+        let conn = b.connect(l.proxy);
+        std::thread::sleep(Duration::from_millis(400));
+        for fd in fill {
+            unsafe { libc::close(fd) };
+        }
+        unsafe { libc::setrlimit(libc::RLIMIT_NOFILE, &old) };
+        match conn {
+            Ok(mut c) => {
+                let target = format!("/c07/{}", l.seq.fetch_add(1, Ordering::SeqCst));
+                match c.get(&target) {
+                    Ok(resp) => {
+                        // the proxy managed to serve it (it was accepted only after the descriptors came back): nothing to observe here
+                        println!("VXW-NOTE descriptor exhaustion did not hit the accept path this time (status {}): case not exercised", resp.status);
+                        l.k().del_raw([TCP, p as u32]);
+                        continue;
+                    }
+                    Err(_) => {} // dropped by the proxy without an answer: the path in question
+                }
+            }
+            Err(e) => {
+                l.k().del_raw([TCP, p as u32]);
+                println!("VXW-NOTE connect under descriptor exhaustion failed ({}): case not exercised", e);
+                continue;
+            }
+        }
+        l.n.fetch_add(1, Ordering::SeqCst);
+        if !vx_wait_until(Duration::from_secs(3), || l.k().get(p).is_none()) {
+            l.fail(serde_json::json!({"property": "C07", "case": what, "history": h, "client_source_port": p,
+                "got": {"record_still_in_the_kernel_map_3s_after_the_proxy_dropped_the_connection": l.k().get(p)},
+                "want": "the record is consumed when the connection is accepted"}));
+        }
+        match l.open(p, None) {
+            Ok(mut c) => {
+                l.request(&format!("source port reused without a fresh record after: {}", what), &h, &mut c, Want::Refused);
+            }
+            Err(e) => println!("VXW-NOTE source port {} could not be reused ({}): reuse not checked", p, e),
+        }
+        l.k().del_raw([TCP, p as u32]);
+    }
+    l.k().clear();
+
     // ---- S8: what the agent reports about the served connections (status summary): user and destination of the records
     {
         let other_uid = [1u32, 2, 65534].into_iter().find(|u| user_name(*u).is_some());
